@@ -108,7 +108,9 @@ let eq_matrix (vs : value list) : string =
   String.concat "" (List.concat_map (fun a -> List.map (fun b ->
       match veq a b with Some true -> "t" | Some false -> "f" | None -> "u") vs) vs)
 
-(* the same observations computed by the Model's observers on the representation *)
+(* the same observations computed by the Model's OWN observers on the representation (VariantModel: m_type, m_to_*, meq -
+   the transcription of the code's switch(data->type), casts and operator==, which does not call the Spec's to_* / veq):
+   mode `model` prints only these, so the comparison with the harness ties the transcription to the code *)
 let m_coercions (hp : heap) (h : handle) : string =
   let (m, e) = m_to_dbl hp h in
   String.concat "," [ (if m_to_bool hp h then "1" else "0"); oz (m_to_int hp h); oz (m_to_uint hp h); oz (m_to_i64 hp h);
